@@ -20,10 +20,10 @@ ver = json.load(open(os.path.join(src, "verify.json")))
 assert ver["demo_with_change_rc"] != 0 and ver["demo_without_change_rc"] == 0 and ver["suite_with_change_rc"] == 0, ver
 shutil.copy(os.path.join(src, "patch.diff"), os.path.join(dst, "patch.diff"))
 shutil.copy(os.path.join(src, "demo.rs"), os.path.join(dst, "demo.rs"))
-out = subprocess.run([os.path.join(HERE, "tools", "try_seed.sh"), os.path.join(dst, "patch.diff")], cwd=HERE,
+out = subprocess.run([os.path.join(HERE, "tools", "try_patch.py"), os.path.join(dst, "patch.diff")], cwd=HERE,
                      stdout=subprocess.PIPE, stderr=subprocess.STDOUT, text=True).stdout
-caught = sorted(set(re.findall(r"rule (C\d+\.[A-Za-z0-9-]+) instance (\S+)", out)))
-props = sorted(set(re.findall(r"^== (C\d+) rc=1", out, re.M)))
+caught = sorted(set((r, i) for r, _fn, i in re.findall(r"^   (C\d+\.[A-Za-z0-9-]+) \| (.*?) \| (.*?) \[", out, re.M)))
+props = sorted({r.split(".")[0] for r, _ in caught})
 meta_out = {
     "name": name,
     "breaks_property": meta.get("property", pid),
@@ -32,7 +32,7 @@ meta_out = {
     "needs_to_manifest": meta.get("needs_to_manifest"),
     "demo_path": meta.get("demo_path", "tests/seed_demo.rs"),
     "confirmed": {
-        "how": "scratch worktree /tmp/seed-%s: git apply patch.diff; cargo test --offline --test seed_demo (fails); "
+        "how": "scratch worktree /tmp/seed-%s (tools/verify_seed.sh): git apply patch.diff; cargo test --offline --test seed_demo (fails); "
                "cargo test --workspace --offline --no-fail-fast without the demo (all pass); git apply -R; demo passes" % pid,
         "demo_fails_with_change": ver["demo_with_change_rc"] != 0,
         "existing_suite_passes_with_change": ver["suite_with_change_rc"] == 0,
